@@ -215,6 +215,10 @@ pub struct TxOutcome {
     /// store snapshots after each instruction (only when requested), for in-transaction monitors
     pub mid_states: Vec<Store>,
     pub cpis: Vec<CpiRecord>,
+    /// when an instruction failed: the state *as the failing instruction left it* (account
+    /// buffers read back as-is).  Never committed; lets monitors see what a rejected health
+    /// check was looking at.
+    pub failed_state: Option<Store>,
 }
 
 impl TxOutcome {
@@ -756,12 +760,13 @@ impl Executor {
                 &mut cpi_counter,
                 &mut all_cpis,
             );
-            if let Err(e) = r {
+            if let Err((e, failed)) = r {
                 return (
                     TxOutcome {
                         result: Err(e),
                         mid_states,
                         cpis: all_cpis,
+                        failed_state: failed.map(|accounts| Store { accounts }),
                     },
                     None,
                 );
@@ -786,6 +791,7 @@ impl Executor {
                     }),
                     mid_states,
                     cpis: all_cpis,
+                    failed_state: None,
                 },
                 None,
             );
@@ -795,6 +801,7 @@ impl Executor {
                 result: Ok(()),
                 mid_states,
                 cpis: all_cpis,
+                failed_state: None,
             },
             Some(after),
         )
@@ -811,7 +818,22 @@ impl Executor {
         privs: &BTreeMap<Pubkey, (bool, bool)>,
         cpi_counter: &mut u32,
         all_cpis: &mut Vec<CpiRecord>,
-    ) -> Result<(), TxError> {
+    ) -> Result<(), (TxError, Option<BTreeMap<Pubkey, Account>>)> {
+        self.execute_ix_inner(work, clock, tx, idx, ix, privs, cpi_counter, all_cpis)
+    }
+
+    #[allow(clippy::too_many_arguments)]
+    fn execute_ix_inner(
+        &self,
+        work: &mut BTreeMap<Pubkey, Account>,
+        clock: SimClock,
+        tx: &Tx,
+        idx: usize,
+        ix: &Ix,
+        privs: &BTreeMap<Pubkey, (bool, bool)>,
+        cpi_counter: &mut u32,
+        all_cpis: &mut Vec<CpiRecord>,
+    ) -> Result<(), (TxError, Option<BTreeMap<Pubkey, Account>>)> {
         let mk_err = |code: u32, source: ErrSource, msg: String| TxError {
             ix_index: idx,
             code,
@@ -824,16 +846,22 @@ impl Executor {
                 return Ok(());
             }
             if self.foreign.failing.contains(&ix.program_id) {
-                return Err(mk_err(
-                    ERR_FOREIGN_FAIL,
-                    ErrSource::Foreign,
-                    "foreign program failed".into(),
+                return Err((
+                    mk_err(
+                        ERR_FOREIGN_FAIL,
+                        ErrSource::Foreign,
+                        "foreign program failed".into(),
+                    ),
+                    None,
                 ));
             }
-            return Err(mk_err(
-                ERR_UNKNOWN_PROGRAM,
-                ErrSource::Foreign,
-                format!("unknown program {}", ix.program_id),
+            return Err((
+                mk_err(
+                    ERR_UNKNOWN_PROGRAM,
+                    ErrSource::Foreign,
+                    format!("unknown program {}", ix.program_id),
+                ),
+                None,
             ));
         }
 
@@ -907,7 +935,7 @@ impl Executor {
                 } else {
                     "panic".to_string()
                 };
-                return Err(mk_err(ERR_PANIC, ErrSource::Panic, msg));
+                return Err((mk_err(ERR_PANIC, ErrSource::Panic, msg), None));
             }
             Ok(Err(e)) => {
                 let code = match &e {
@@ -925,7 +953,23 @@ impl Executor {
                     ErrSource::Program
                 };
                 let msg = ctx.runtime_violation.unwrap_or_else(|| format!("{e:?}"));
-                return Err(mk_err(code, source, msg));
+                // state as the failing instruction left it
+                let mut failed = work.clone();
+                for slot in input.slots.iter() {
+                    if let Ok((lamports, owner, data)) = input.read_back(slot) {
+                        let exec = failed.get(&slot.key).map(|a| a.executable).unwrap_or(false);
+                        failed.insert(
+                            slot.key,
+                            Account {
+                                lamports,
+                                data,
+                                owner,
+                                executable: exec,
+                            },
+                        );
+                    }
+                }
+                return Err((mk_err(code, source, msg), Some(failed)));
             }
             Ok(Ok(())) => {}
         }
@@ -939,7 +983,7 @@ impl Executor {
         {
             let (lamports, owner, data) = input
                 .read_back(slot)
-                .map_err(|m| mk_err(ERR_RUNTIME, ErrSource::Runtime, m))?;
+                .map_err(|m| (mk_err(ERR_RUNTIME, ErrSource::Runtime, m), None))?;
             let default_acc = Account::system(0);
             let pre = work.get(&slot.key).unwrap_or(&default_acc);
             let changed_data = pre.data != data;
@@ -949,33 +993,33 @@ impl Executor {
                 continue;
             }
             if !meta.2 {
-                return Err(mk_err(
+                return Err((mk_err(
                     ERR_RUNTIME,
                     ErrSource::Runtime,
                     format!("read-only account {} modified", slot.key),
-                ));
+                ), None));
             }
             if pre.executable {
-                return Err(mk_err(
+                return Err((mk_err(
                     ERR_RUNTIME,
                     ErrSource::Runtime,
                     format!("executable account {} modified", slot.key),
-                ));
+                ), None));
             }
             let by_cpi = ctx.cpi_touched.contains(&slot.key);
             if (changed_data || changed_owner) && pre.owner != marginfi_id() && !by_cpi {
-                return Err(mk_err(
+                return Err((mk_err(
                     ERR_RUNTIME,
                     ErrSource::Runtime,
                     format!("account {} not owned by program had data modified", slot.key),
-                ));
+                ), None));
             }
             if lamports < pre.lamports && pre.owner != marginfi_id() && !by_cpi {
-                return Err(mk_err(
+                return Err((mk_err(
                     ERR_RUNTIME,
                     ErrSource::Runtime,
                     format!("account {} not owned by program was debited", slot.key),
-                ));
+                ), None));
             }
             updates.push((
                 slot.key,
